@@ -929,8 +929,10 @@ func (x *Exec) typeAssert(fr *Frame, ins *ssa.TypeAssert) Value {
 func (x *Exec) mapKey(k Value) string {
 	switch kv := k.(type) {
 	case *smt.Term:
-		v := x.concretize(kv, "map key")
-		return fmt.Sprintf("i%d:%d", kv.W, v)
+		if !kv.IsConst() {
+			return fmt.Sprintf("t%d:%d", kv.W, kv.ID) // symbolic key: identified by its (hash-consed) term
+		}
+		return fmt.Sprintf("i%d:%d", kv.W, kv.Val)
 	case Str:
 		for _, b := range kv.B {
 			x.concretize(b, "map key byte")
@@ -965,6 +967,16 @@ func (x *Exec) mapSet(m *MapV, k string, kv, v Value) {
 		panic(mergeAbort{"map update inside merge arm"})
 	}
 	if _, ok := m.Vals[k]; !ok {
+		// a new key must be provably different from every existing integer key (symbolic or not)
+		if kt, isT := kv.(*smt.Term); isT {
+			for _, ok2 := range m.Keys {
+				if ot, isT2 := m.KVal[ok2].(*smt.Term); isT2 && (!kt.IsConst() || !ot.IsConst()) {
+					if x.feasible(x.e.C.Eq(kt, ot)) {
+						efail("map update with a symbolic key that may alias an existing key")
+					}
+				}
+			}
+		}
 		m.Keys = append(m.Keys, k)
 		m.KVal[k] = kv
 	}
@@ -983,8 +995,43 @@ func (x *Exec) lookup(fr *Frame, ins *ssa.Lookup) Value {
 		var v Value
 		ok := false
 		if xv != nil {
-			k := x.mapKey(x.get(fr, ins.Index))
+			kval := x.get(fr, ins.Index)
+			k := x.mapKey(kval)
 			v, ok = xv.Vals[k]
+			if kt, isT := kval.(*smt.Term); isT && !ok {
+				// symbolic lookup: ite chain over the integer-keyed entries
+				anySym := !kt.IsConst()
+				for _, ek := range xv.Keys {
+					if ot, isT2 := xv.KVal[ek].(*smt.Term); isT2 && !ot.IsConst() {
+						anySym = true
+					}
+				}
+				if anySym {
+					var acc Value = x.e.zeroValue(mt.Elem())
+					found := C.False()
+					for _, ek := range xv.Keys {
+						ot, isT2 := xv.KVal[ek].(*smt.Term)
+						if !isT2 {
+							continue
+						}
+						ev, present := xv.Vals[ek]
+						if !present {
+							continue
+						}
+						eq := C.Eq(kt, ot)
+						m, mok := x.mergeVal(eq, ev, acc)
+						if !mok {
+							efail("symbolic map lookup over non-scalar values")
+						}
+						acc = m
+						found = C.BOr(found, eq)
+					}
+					if ins.CommaOk {
+						return Tuple{acc, found}
+					}
+					return acc
+				}
+			}
 		}
 		if !ok {
 			v = x.e.zeroValue(mt.Elem())
